@@ -183,7 +183,7 @@ class LinkManager(HubListener):
             if update_external:
                 self.update_externally_derivable_components()
         else:
-            if link not in self._external_links and isinstance(link, LinkCollection) or link.inverse not in self._external_links:
+            if link not in self._external_links and (isinstance(link, LinkCollection) or link.inverse not in self._external_links):
                 if isinstance(link, JoinLink):
                     link.data1.join_on_key(link.data2, link.cids1[0], link.cids2[0])
                 self._external_links.append(link)
